@@ -20,7 +20,7 @@ def known_ids(prop):
     return {k["id"]: k for k in load_known_findings() if k.get("kind") == "known" and prop in k.get("properties", [k.get("property")])}
 
 
-def run_prog_check(prop, props_files, tier, oracles, features=gen_prog.ALL, n_quick=4000, n_thorough=60000, rule="", extra=None, max_bodies=4, max_ops=6, scenarios=(0, 0), lifecycle=(0, 0)):
+def run_prog_check(prop, props_files, tier, oracles, features=gen_prog.ALL, n_quick=4000, n_thorough=60000, rule="", extra=None, max_bodies=4, max_ops=6, scenarios=(0, 0), lifecycle=(0, 0), focus=None, focus_n=(0, 0)):
     """oracles: list of names among c08, c03, c13, objects:<PROP>.  Violations of the implementation's own traces
     are reported with the program as replay; a model/implementation disagreement without an oracle failure
     is reported as a broken correspondence (no-failing-input-found)."""
@@ -56,6 +56,21 @@ def run_prog_check(prop, props_files, tier, oracles, features=gen_prog.ALL, n_qu
         for _ in range(2):
             f[2] = gen_prog.gen_script(rng)
             cases.append(" ".join(f))
+    # focused streams: programs over one or two primitives only, with more operations per body, so that multi-step
+    # interactions of that primitive (several waiters, wake-up then wait again, drops while blocked) are common
+    nfoc = (focus_n[0] if tier == "quick" else focus_n[1]) if focus else 0
+    for i in range(nfoc):
+        feats = focus[i % len(focus)]
+        if isinstance(feats, str):
+            c = gen_prog.gen_focus(rng, feats)
+        else:
+            c = gen_prog.gen_case(rng, wild=False, features=feats, max_bodies=rng.choice([2, 3, 3, 4]), max_ops=rng.choice([6, 8, 10]))
+        cases.append(c)
+        if i % 2 == 0:
+            f = c.split(" ")
+            f[2] = gen_prog.gen_script(rng)
+            cases.append(" ".join(f))
+    ctx.dist("generated.focused", nfoc)
     nlc = lifecycle[0] if tier == "quick" else lifecycle[1]
     for i in range(nlc):
         cases.append(gen_prog.gen_lifecycle(rng))
@@ -150,6 +165,8 @@ def run_prog_check(prop, props_files, tier, oracles, features=gen_prog.ALL, n_qu
             msg = "step-bound verdict differs on the same program and schedule: implementation '%s', verified model '%s'" % (vi, vm)
         elif prop == "C07" and km != ki and km == "ok" and ki in ("panic", "deadlock"):
             msg = "the implementation ends with '%s' on a program that the verified model of the same schedule runs to completion (threads, joins, scopes and thread-locals only)" % vi
+        elif prop in ("C04", "C05", "C06", "C17", "C18") and km != ki and "ok" in (km, ki) and (km in ("deadlock", "panic") or ki in ("deadlock", "panic")):
+            msg = "verdict differs on the same program and schedule: the implementation ends with '%s', the verified model with '%s' (a wake-up or a grant was lost or invented)" % (vi, vm)
         if msg:
             nverd += 1
             if nverd <= 3:
